@@ -873,15 +873,17 @@ func (sc *segmentController[T, O]) create(ctx context.Context, start time.Time) 
 	// Anchor stdEnd to the aligned start before any bump so end stays on the
 	// global grid even when start is bumped past a legacy off-grid neighbor;
 	// subsequent segments then self-heal back to the grid.
+	ts := start
 	alignedStart := options.SegmentInterval.Standard(start)
 	stdEnd := options.SegmentInterval.NextTime(alignedStart)
 	start = alignedStart
 	// sc.lst is sorted ascending by start time with non-overlapping ranges;
 	// a single pass bumps start past every legacy segment that swallows it
-	// (each next segment.Start >= previous.End).
+	// (each next segment.Start >= previous.End), and past every legacy segment
+	// lying between it and ts, so the new segment always contains ts.
 	var next *segment[T, O]
 	for _, s := range sc.lst {
-		if s.Contains(start.UnixNano()) {
+		if s.Contains(start.UnixNano()) || (s.Start.After(start) && !s.End.After(ts)) {
 			start = s.End
 			continue
 		}
